@@ -43,3 +43,11 @@ Proof.
   destruct (run (init 2 3) _) as [s|] eqn:E; [|vm_compute in E; discriminate].
   split; [eapply run_reachable; [apply r_init|exact E]|]. vm_compute in E. inversion E; subst. repeat split.
 Qed.
+
+(* Atomicity assumptions of the transition system, as generated facts re-checked on every run (tools/lockscan over /repo's source):
+   Acquire, updateAndGetSample, the precise strategy's methods and unblock are whole-body critical sections of their mutex, and the
+   simple strategy's counters are touched only through sync/atomic. *)
+From GCL Require Gen.Access.
+Theorem C01_required_atomic : forallb snd Gen.Access.whole_body_facts && Gen.Access.simple_counters_atomic = true.
+Proof. vm_compute. reflexivity. Qed.
+Print Assumptions C01_required_atomic.
